@@ -26,6 +26,8 @@ SUITES = {
     "dayc": ("suites.dayc", "dayc", "DayConcrete.v: one whole day = Day.v's orchestration instantiated with the 19 unit process models (no replayed process), against real simulated days"),
     "runc": ("suites.runc", "dayc", "RunConcrete.v: the WHOLE RUN = Clock.v's guarded run loop + Day.v's season reset around the concrete day; the extracted run_till_c runs complete simulations on its own "
              "(state flowing from day to day, nothing recorded fed back) and all three daily tables, the summary rows and the final clock/state are compared with the implementation's"),
+    "initialise": ("suites.initialise", "initialise", "Init/Initialise.v: initialise : Config -> Init composed from the initialisation units, and run_config = the WHOLE SIMULATION from the user's configuration "
+                   "(weather table, soil specification, crop row with overrides, managements, groundwater, CO2, dates): initialised structures, the crop of every season, all daily tables and summary rows bit for bit"),
     "initstate": ("suites.initstate", "initstate", "Init/InitState.v: the initial state object (InitialCondition defaults + read_model_initial_conditions incl. the water-table overrides) against real initialisations, every field"),
     "cropinit": ("suites.cropinit", "cropinit", "Init/CropInit.v: calculate_HIGC, calculate_HI_linear (fuel-bounded searches), derived crop parameters of compute_variables through real initialisations of all 37 catalogue crops"),
     "calendar": ("suites.calendar_", "calendar", "Init/Calendar.v: dates, season list, crop calendar"),
@@ -39,7 +41,10 @@ def run_suites(names_counts, tier, pid):
         modname, unit, what = SUITES[name]
         try:
             mod = importlib.import_module(modname)
-            if hasattr(mod, "run_custom"):     # suites that run whole simulations in parallel workers (runc)
+            if name == "initialise":           # whole simulations FROM THE USER'S CONFIGURATION (Init/Initialise.v), parallel workers
+                r = mod.run_l3(nq if tier == "quick" else nt)
+                r["suite"] = "initialise"
+            elif hasattr(mod, "run_custom"):     # suites that run whole simulations in parallel workers (runc)
                 r = mod.run_custom(nq if tier == "quick" else nt, pid)
             else:
                 r = l1.run_suite(name, mod.gen, nq if tier == "quick" else nt, seed_names=(pid,), unit=unit)
@@ -71,6 +76,8 @@ class Prop:
         if not cfgs:
             return {"violations": [], "coverage": {"evaluations": 0}}
         if self._worker is None:
+            if self.pid not in monitors.TRACE_CHECKS:      # the property's monitor is not trace based and has no per-configuration worker
+                return {"violations": [], "coverage": {"evaluations": 0, "note": "no focused search for this property's monitor"}}
             return _base.trace_monitor(self.pid, cfgs)
         pl = [self._payload(c, i) if self._payload else {"cfg": c} for i, c in enumerate(cfgs)]
         return _base.run_monitor(self._worker, pl, timeout=600)
